@@ -13,9 +13,9 @@
 (* and an injective one.                                                     *)
 EXTENDS AkdDirectory, Json, IOUtils, TLC, SequencesExt
 
-VARIABLES pos, roots, memo, ctx, saved
+VARIABLES pos, roots, memo, ctx, saved, notified
 
-tvars == <<dvars, pos, roots, memo, ctx, saved>>
+tvars == <<dvars, pos, roots, memo, ctx, saved, notified>>
 
 Rec == ndJsonDeserialize(IOEnv.TRACE)
 Ev == Rec[pos]
@@ -29,6 +29,7 @@ TInit ==
   /\ memo = <<>>           \* a function with empty domain
   /\ ctx = <<"-", 0>>
   /\ saved = <<>>
+  /\ notified = 0
   /\ TLCSet(1, 1)
 
 MemoKey(c, h) == <<c, Committed(h)>>
@@ -48,7 +49,7 @@ TReset ==
   /\ roots' = <<Ev.root0>>
   /\ ctx' = <<Ev.cfg, Ev.conc>>
   /\ MemoUpdate(<<Ev.cfg, Ev.conc>>, [x \in Labels |-> <<>>], Ev.root0)
-  /\ saved' = <<>>
+  /\ saved' = <<>> /\ notified' = 0
 
 (* the body of a publish event whose call returned ok / noop / a specification-level error *)
 PublishBody ==
@@ -76,18 +77,27 @@ TPublishFault ==
        THEN /\ Ev.txn_open = FALSE
             /\ UNCHANGED <<dvars, roots, memo>>
        ELSE PublishBody
-  /\ UNCHANGED <<ctx, saved>>
+  /\ UNCHANGED <<ctx, saved, notified>>
 
-TSave == /\ IsEv("save") /\ saved' = <<epoch, hist, effective, roots>> /\ UNCHANGED <<dvars, roots, memo, ctx>>
+TSave == /\ IsEv("save") /\ saved' = <<epoch, hist, effective, roots>> /\ UNCHANGED <<dvars, roots, memo, ctx, notified>>
 TRestore == /\ IsEv("restore") /\ saved # <<>>
             /\ epoch' = saved[1] /\ hist' = saved[2] /\ effective' = saved[3] /\ roots' = saved[4]
-            /\ UNCHANGED <<memo, ctx, saved>>
+            /\ UNCHANGED <<memo, ctx, saved, notified>>
 
 (* C13: an answer of an instance that may have fallen behind storage, or that ran concurrently with  *)
 (* publishes: an error, or a really published (epoch, root) pair with results as of exactly that epoch *)
 RootAt(t) == roots[t + 1]
+(* C13: the change poller of the (remote) instance signalled a new epoch *)
+TNotify ==
+  /\ IsEv("notify")
+  /\ IF Ev.res = "ok" THEN Ev.epoch = epoch /\ notified' = Ev.epoch ELSE UNCHANGED notified
+  /\ UNCHANGED <<dvars, roots, memo, ctx, saved>>
+
+AnsweredEpochOK == (Ev.res \in {"ok"} /\ Ev.kind \in {"epoch_hash", "lookup", "batch_lookup", "history"}) => Ev.epoch >= notified
+
 TRAnswer ==
   /\ IsEv("ranswer")
+  /\ AnsweredEpochOK
   /\ LET k == Ev.kind IN
      CASE k = "epoch_hash" ->
             Ev.res = "err" \/ (Ev.res = "ok" /\ Ev.epoch <= epoch /\ Ev.root = RootAt(Ev.epoch))
@@ -108,20 +118,48 @@ TRAnswer ==
             \/ Ev.res = "refused"
             \/ Ev.res = "ok" /\ AuditDefined(Ev.s, Ev.e) /\ Ev.roots = SubSeq(roots, Ev.s + 1, Ev.e + 1)
        [] k = "wire" -> Ev.roundtrip /\ Ev.same
-  /\ UNCHANGED <<dvars, roots, memo, ctx, saved>>
+  /\ UNCHANGED <<dvars, roots, memo, ctx, saved, notified>>
+
+(* C12: the calls of a concurrent run, serialised by the harness: effective publishes in the order of *)
+(* the epochs they returned, then no-ops, then failed calls.  An effective call must be the next      *)
+(* epoch of the serial specification; a failed call has no effect; a no-op call returned a published  *)
+(* pair as of which its batch changes nothing.                                                         *)
+NoChangeAt(b, t) ==
+  \A i \in 1..Len(b) : LET h == HistAt(t)[b[i][1]] IN Len(h) > 0 /\ Stored(h[Len(h)]) = b[i][2]
+
+TCPublish ==
+  /\ IsEv("cpublish")
+  /\ LET b == Ev.batch IN
+     CASE Ev.res = "ok" ->
+            /\ PublishResult(b) = "ok"
+            /\ Publish(b)
+            /\ Ev.epoch = epoch'
+            /\ roots' = Append(roots, Ev.root)
+            /\ MemoUpdate(ctx, hist', Ev.root)
+       [] Ev.res = "noop" ->
+            /\ ~IsDup(b) /\ Ev.epoch <= epoch /\ Ev.root = RootAt(Ev.epoch) /\ NoChangeAt(b, Ev.epoch)
+            /\ UNCHANGED <<dvars, roots, memo>>
+       [] Ev.res = "err" -> UNCHANGED <<dvars, roots, memo>>
+  /\ UNCHANGED <<ctx, saved, notified>>
+
+TFinalLeaves ==
+  /\ IsEv("final_leaves")
+  /\ Ev.epoch = epoch /\ Ev.root_ok /\ ~Ev.txn_open
+  /\ ToSet(Ev.leaves) = LeavesOf(hist) /\ Len(Ev.leaves) = Cardinality(LeavesOf(hist))
+  /\ UNCHANGED <<dvars, roots, memo, ctx, saved, notified>>
 
 TPublish ==
   /\ IsEv("publish")
   /\ PublishBody
-  /\ UNCHANGED <<ctx, saved>>
+  /\ UNCHANGED <<ctx, saved, notified>>
 
 TTombstone ==
   /\ IsEv("tombstone")
   /\ Ev.res = "ok"
   /\ Tombstone(Ev.label, Ev.cut)
-  /\ UNCHANGED <<roots, memo, ctx, saved>>
+  /\ UNCHANGED <<roots, memo, ctx, saved, notified>>
 
-Same == UNCHANGED <<dvars, roots, memo, ctx, saved>>
+Same == UNCHANGED <<dvars, roots, memo, ctx, saved, notified>>
 
 CurRoot == roots[epoch + 1]
 
@@ -185,12 +223,13 @@ TWire ==
 (* C14: re-creating the directory object / manager / read-only wrapper is invisible *)
 TReopen ==
   /\ IsEv("reopen")
-  /\ Same
+  /\ notified' = IF Ev.kind = "remote_open" THEN 0 ELSE notified
+  /\ UNCHANGED <<dvars, roots, memo, ctx, saved>>
 
 TNext ==
   \/ TReset \/ TPublish \/ TTombstone \/ TEpochHash \/ TLookup \/ TBatchLookup
   \/ THistory \/ TAudit \/ TAuditTamper \/ TWire \/ TReopen \/ TCrash
-  \/ TPublishFault \/ TSave \/ TRestore \/ TRAnswer
+  \/ TPublishFault \/ TSave \/ TRestore \/ TRAnswer \/ TCPublish \/ TFinalLeaves \/ TNotify
 
 TSpec == TInit /\ [][TNext]_tvars
 
